@@ -1129,9 +1129,12 @@ class SQLModel:
                 return [
                     ki
                     for ki, vi in dep_dict.items()
-                    if (len(vi - {ki}) > 0)
-                    or (ki not in vi)
-                    or ((term_dict[ki] is not None) and (term_dict[ki] != ki))
+                    if (ki in term_dict)  # a later drop_columns / select_columns may have removed the term
+                    and (
+                        (len(vi - {ki}) > 0)
+                        or (ki not in vi)
+                        or ((term_dict[ki] is not None) and (term_dict[ki] != ki))
+                    )
                 ]
 
             our_non_trivial_terms = non_trivial_terms(
